@@ -45,6 +45,13 @@ let handle line = match parse line with
       let es = List.map ev (list_of es) in
       let (_, os) = srun dc spec0 es in
       L [I (if wf_run dc spec0 es then 1 else 0); L (List.map (fun o -> L (List.map vout o)) os)]
+  | [A "sender"; I g; sts; q] ->
+      (* sender <guard> [state of conn 0, 1, ...: 0 open 1 closed locally 2 peer gone] [[conn msg] ...] *)
+      let sts = Array.of_list (ints sts) in
+      let cf c = let k = i c in if k < Array.length sts then (match sts.(k) with 0 -> COpen | 1 -> CLocal | _ -> CPeerGone) else COpen in
+      let q = List.map (fun p -> match ints p with [c; m] -> (n c, n m) | _ -> failwith "msg") (list_of q) in
+      let r = send_all (g <> 0) { alive = true; conn = cf; sent = []; dropped = [] } q in
+      L [I (if r.alive then 1 else 0); L (List.map (fun (c, m) -> vints [i c; i m]) r.sent); vints (List.map i r.dropped)]
   | _ -> A "BADCMD"
 let () =
   try while true do
